@@ -2148,6 +2148,27 @@ M('C03', 'codec-table-zip-not-raw-on-compress', CO, COMP_ARMS, '    @staticmetho
 M('C03', 'codec-table-bz2-pair-swapped', CO, COMP_ARMS, '    @staticmethod\n    def _deflate_raw(data):\n        return zlib.compress(data)[2:-4]\n\n    @staticmethod\n    def _inflate_raw(data):\n        return zlib.decompress(data, -15)\n\n    def _codec(self):\n        codecs = {\n            CompressionAlgorithm.Uncompressed: None,\n            CompressionAlgorithm.ZIP: (self._deflate_raw, self._inflate_raw),\n            CompressionAlgorithm.ZLIB: (zlib.compress, zlib.decompress),\n            CompressionAlgorithm.BZ2: (bz2.decompress, bz2.compress),\n        }\n\n        if self not in codecs:  # pragma: no cover\n            raise NotImplementedError(self)\n\n        return codecs[self]\n\n    def compress(self, data):\n        codec = self._codec()\n        if codec is None:\n            return data\n\n        deflate, _ = codec\n        return deflate(data)\n\n    def decompress(self, data):\n        codec = self._codec()\n        if codec is None:\n            return data\n\n        _, inflate = codec\n        return inflate(data)\n\n\n', 'C03.6')
 M('C03', 'codec-table-inflate-helper-expects-zlib-header', CO, COMP_ARMS, '    @staticmethod\n    def _deflate_raw(data):\n        return zlib.compress(data)[2:-4]\n\n    @staticmethod\n    def _inflate_raw(data):\n        return zlib.decompress(data)\n\n    def _codec(self):\n        codecs = {\n            CompressionAlgorithm.Uncompressed: None,\n            CompressionAlgorithm.ZIP: (self._deflate_raw, self._inflate_raw),\n            CompressionAlgorithm.ZLIB: (zlib.compress, zlib.decompress),\n            CompressionAlgorithm.BZ2: (bz2.compress, bz2.decompress),\n        }\n\n        if self not in codecs:  # pragma: no cover\n            raise NotImplementedError(self)\n\n        return codecs[self]\n\n    def compress(self, data):\n        codec = self._codec()\n        if codec is None:\n            return data\n\n        deflate, _ = codec\n        return deflate(data)\n\n    def decompress(self, data):\n        codec = self._codec()\n        if codec is None:\n            return data\n\n        _, inflate = codec\n        return inflate(data)\n\n\n', 'C03.6')
 
+# ---- wave 5 (held-out): memoised recipient set, cipher re-chosen per recipient, length codec of streamed containers
+ENCR = "        return set(m.encrypter for m in self._sessionkeys if isinstance(m, PKESessionKey))"
+ENCR_MEMO = ("        if self._encrypters is None:\n            self._encrypters = frozenset(m.encrypter for m in self._sessionkeys if isinstance(m, PKESessionKey))\n        return self._encrypters")
+INIT_SK = "        self._signatures = SorteDeque()\n        self._sessionkeys = []\n\n    def __bytearray__(self):"
+INIT_SK_MEMO = "        self._signatures = SorteDeque()\n        self._sessionkeys = []\n        self._encrypters = None\n\n    def __bytearray__(self):"
+OR_ONE = "            self._sessionkeys.append(other)\n            return self\n"
+OR_MANY = "            self._sessionkeys += other._sessionkeys\n            self._signatures += other._signatures\n"
+M('C03', 'encrypters-memo-stale-after-append', PGP, ENCR, ENCR_MEMO, 'C03.8',
+  more=[(PGP, INIT_SK, INIT_SK_MEMO), (PGP, OR_MANY, "            self._sessionkeys += other._sessionkeys\n            self._encrypters = None\n            self._signatures += other._signatures\n")])
+M('C03', 'encrypters-memo-never-reset', PGP, ENCR, ENCR_MEMO, 'C03.8', more=[(PGP, INIT_SK, INIT_SK_MEMO)])
+T('C03', 'twin-encrypters-memo-reset-at-every-change', PGP, ENCR, ENCR_MEMO,
+  more=[(PGP, INIT_SK, INIT_SK_MEMO), (PGP, OR_ONE, "            self._sessionkeys.append(other)\n            self._encrypters = None\n            return self\n"),
+        (PGP, OR_MANY, "            self._sessionkeys += other._sessionkeys\n            self._encrypters = None\n            self._signatures += other._signatures\n")])
+WARN = "            warnings.warn(\"Selected symmetric algorithm not in key preferences\", stacklevel=3)\n\n        if message.is_compressed"
+M('C03', 'cipher-rechosen-from-recipient-prefs', PGP, WARN, "            warnings.warn(\"Selected symmetric algorithm not in key preferences\", stacklevel=3)\n            cipher_algo = pref_cipher\n\n        if message.is_compressed", 'C03.7')
+M('C03', 'cipher-ignores-callers-choice', PGP, "        cipher_algo = prefs.pop('cipher', pref_cipher)\n", "        prefs.pop('cipher', None)\n        cipher_algo = pref_cipher\n", 'C03.7')
+T('C03', 'twin-cipher-choice-renamed-temp', PGP, "        cipher_algo = prefs.pop('cipher', pref_cipher)\n\n        if cipher_algo not in uid.selfsig.cipherprefs:",
+  "        requested = prefs.pop('cipher', pref_cipher)\n        cipher_algo = requested\n\n        if requested not in uid.selfsig.cipherprefs:")
+M('C03', 'length-two-octet-second-from-start', TY, "                    dlen = self.bytes_to_int(b[offset:offset + 2])\n                    return (((dlen - (192 << 8)) & 0xFF00) + ((dlen & 0xFF) + 192), 2, False)",
+  "                    return (((fo - 192) << 8) + a[1] + 192, 2, False)", 'C03.9')
+
 # =============================================================================================== C02
 M('C02', 'hash2-last-two', PGP, "        sig._signature.hash2 = bytearray(h2.digest()[:2])", "        sig._signature.hash2 = bytearray(h2.digest()[-2:])", 'C02.2')
 M('C02', 'signer-hashdata-none', PGP, "        _sig = self._key.sign(sigdata, getattr(hashes, sig.hash_algorithm.name)())", "        _sig = self._key.sign(sig.hashdata(None), getattr(hashes, sig.hash_algorithm.name)())", 'C02.2')
